@@ -242,7 +242,13 @@ def run (g : GOracle) (j : Json) : Json :=
     -- generic part of the specification: never a panic, only language-typed values
     let c10 := if J.bool (J.get j "c10") && (io == "ok" || io == "err") then c10spec j obs else (true, "")
     let c14 := if J.bool (J.get j "c14") then c14spec j obs else (true, "")
-    let specGeneric := io != "panic" && io != "crash" && implWellTyped obs && c10.1 && c14.1
+    -- C09/C13 on the implementation's own loaded trees: the scripts of a case that runs were all
+    -- accepted, so every use("name") naming one of them is bound to exactly that script
+    let names := l.scripts.map (·.1)
+    let wantB := ((AstJson.useSites (J.get j "asts") []).filter fun (_, n) => names.contains n).map fun (s, n) => s!"{s}:{J.toHex n}"
+    let haveB := l.bounds.map fun (s, n) => s!"{s}:{J.toHex n}"
+    let bindOk := io == "notloaded" || io == "loaderr" || wantB.toArray.qsort (· < ·) == haveB.toArray.qsort (· < ·)
+    let specGeneric := io != "panic" && io != "crash" && implWellTyped obs && c10.1 && c14.1 && bindOk
     match checkAll g l with
     | .error (.inl q) => J.obj [("id", J.get j "id"), ("agree", true), ("spec", specGeneric), ("need", J.toHex q), ("note", "")]
     | .error (.inr msg) => J.obj [("id", J.get j "id"), ("agree", false), ("spec", specGeneric), ("note", msg)]
@@ -270,6 +276,6 @@ def run (g : GOracle) (j : Json) : Json :=
         return (d0, n)
       let agree := d == ""
       J.obj [("id", J.get j "id"), ("agree", agree), ("spec", specGeneric && (agree || !strict)),
-             ("note", if !c10.1 then c10.2 ++ " | " ++ d else if !c14.1 then c14.2 ++ " | " ++ d else d), ("orders", tried), ("moutcome", m0.outcome), ("semok", semCheck g l 0)]
+             ("note", if !bindOk then s!"use() call sites bound to {haveB}, expected {wantB} | " ++ d else if !c10.1 then c10.2 ++ " | " ++ d else if !c14.1 then c14.2 ++ " | " ++ d else d), ("orders", tried), ("moutcome", m0.outcome), ("semok", semCheck g l 0)]
 
 end DrvRun
